@@ -11,6 +11,10 @@ CHECKS = {
          "Exploration with an exact oracle: all amount/percentage/threshold operations are run on an exhaustive small grid (every exponent pair 0-3), on operands constructed to land on half units, and on random operands up to 2^52; each (value,exp) result is compared with exact rational arithmetic rounded half away from zero. Decides the property on the operand pairs executed; the small grid is complete.",
          "Trusts math/big and the 40-line rounding routine in harness/internal/dec. Operands outside the 2^52 domain are only run for crash-freedom.",
          "DESIGN.md §4 C05"),
+ "C06": ("language/round-trip monitor: every reader and writer of num.Amount/Percentage run on exhaustively enumerated short strings, boundary grammar members and int64 units; accepted set compared with the pattern published in data/schemas/num and an exact big-integer value",
+         "Exploration with an independent oracle: the accepted language is taken from the published schema files at run time; all strings over a 15-symbol alphabet up to length 5/6 are fed to 9 reader entry points, plus grammar members around the int64 boundary; all writers are run over boundary/random int64 units × exponents 0-18 and read back. Decides accept/reject/value agreement on the strings and values executed; the short-string space is complete.",
+         "Trusts Go regexp for the published pattern and math/big for values. Percentages: factor form and empty text are part of the accepted language (documented/tested behaviour); percentage magnitudes beyond 2^52/100 only need 'error or exact value'.",
+         "DESIGN.md §4 C06"),
 }
 
 NOT_YET = {}
